@@ -1,9 +1,13 @@
 import MJ.Model.Eval
+import MJ.Model.Compile
+import MJ.Model.Vm
 /-!
 Line driver for C03 (reference interpreter).
 
 input :  `<id>\t<ctx s-expr>\t<program s-expr>`
-output:  `<id>\tok:<hex of utf-8 output>` | `<id>\terr:<class>` | `<id>\tbad-case:<why>`
+output:  `<id>\t<exec result>\t<model code>\t<model VM result on the model code>` with result `ok:<hex of utf-8 output>` | `err:<class>` |
+         `bad-case:<why>` and model code `(code …)` (same syntax as the harness dump of the real
+         instruction stream) or `oof` when the program leaves the fragment of `MJ.Compile`
 
 S-expression grammar: see `harness/src/bin/c03.rs` (`to_sexp`).  Strings are hex-encoded UTF-8,
 names are bare atoms.
@@ -250,14 +254,77 @@ def errName : Err → String
   | .fuel => "FUEL"
   | .outOfFragment => "OUT-OF-FRAGMENT"
 
+partial def valStr : Val → String
+  | .undef => "undef"
+  | .none => "none"
+  | .bool true => "t"
+  | .bool false => "f"
+  | .int i => s!"(i {i})"
+  | .str s => s!"(s {hexOf s})"
+  | .list xs => "(l" ++ String.join (xs.map fun x => " " ++ valStr x) ++ ")"
+  | .map kvs => "(m" ++ String.join (kvs.map fun kv => s!" ({hexOf kv.1} {valStr kv.2})") ++ ")"
+  | .macro .. => "(other macro)"
+
+def cmpName : CmpOp → String
+  | .eq => "Eq" | .ne => "Ne" | .lt => "Lt" | .le => "Lte" | .gt => "Gt" | .ge => "Gte"
+  | .isin => "In" | .notin => "NotIn"
+
+open MJ.Compile in
+def instrStr : Instr → String
+  | .emitRaw s => s!"(EmitRaw {hexOf s})"
+  | .storeLocal x => s!"(StoreLocal {x})"
+  | .lookup x => s!"(Lookup {x})"
+  | .getAttr n => s!"(GetAttr {n})"
+  | .getItem => "(GetItem)"
+  | .loadConst v => s!"(LoadConst {valStr v})"
+  | .buildMap n => s!"(BuildMap {n})"
+  | .buildList (some n) => s!"(BuildList {n})"
+  | .buildList none => "(BuildList _)"
+  | .unpackList n => s!"(UnpackList {n})"
+  | .add => "(Add)" | .sub => "(Sub)" | .mul => "(Mul)" | .intDiv => "(IntDiv)" | .rem => "(Rem)"
+  | .neg => "(Neg)" | .eq => "(Eq)" | .ne => "(Ne)" | .gt => "(Gt)" | .gte => "(Gte)"
+  | .lt => "(Lt)" | .lte => "(Lte)" | .not => "(Not)" | .stringConcat => "(StringConcat)"
+  | .isIn => "(In)"
+  | .compareAndPreserve op => s!"(CompareAndPreserve {cmpName op})"
+  | .applyFilter name argc id => s!"(ApplyFilter {name} {argc} {id})"
+  | .performTest name argc id => s!"(PerformTest {name} {argc} {id})"
+  | .emit => "(Emit)"
+  | .pushLoop f => s!"(PushLoop {f})"
+  | .pushWith => "(PushWith)"
+  | .iterate t => s!"(Iterate {t})"
+  | .pushDidNotIterate => "(PushDidNotIterate)"
+  | .popFrame => "(PopFrame)"
+  | .popLoopFrame => "(PopLoopFrame)"
+  | .jump t => s!"(Jump {t})"
+  | .jumpIfFalse t => s!"(JumpIfFalse {t})"
+  | .jumpIfFalseOrPop t => s!"(JumpIfFalseOrPop {t})"
+  | .jumpIfTrueOrPop t => s!"(JumpIfTrueOrPop {t})"
+  | .beginCapture => "(BeginCapture Capture)"
+  | .endCapture => "(EndCapture)"
+  | .dupTop => "(DupTop)"
+  | .discardTop => "(DiscardTop)"
+  | .swap => "(Swap)"
+
+def codeStr (prog : List Stmt) : String :=
+  match MJ.Compile.compileTemplate prog with
+  | some code => "(code" ++ String.join (code.map fun i => " " ++ instrStr i) ++ ")"
+  | none => "oof"
+
 def handle (line : String) : String :=
   match line.splitOn "\t" with
   | [id, ctx, prog] =>
     match (parseSExp ctx).bind toCtx, (parseSExp prog).bind toBlock with
     | some ctx, some prog =>
-      match renderTemplate defaultFuel ctx prog with
-      | .ok out => s!"{id}\tok:{hexOf out}"
-      | .error e => s!"{id}\terr:{errName e}"
+      let res := match renderTemplate defaultFuel ctx prog with
+        | .ok out => s!"ok:{hexOf out}"
+        | .error e => s!"err:{errName e}"
+      -- the model VM on the model code (stage 2): must agree with `exec` and with the engine
+      let vm := match MJ.Compile.compileTemplate prog with
+        | none => "-"
+        | some code => match MJ.Vm.renderCode 1000000 ctx code with
+          | .ok out => s!"ok:{hexOf out}"
+          | .error e => s!"err:{errName e}"
+      s!"{id}\t{res}\t{codeStr prog}\t{vm}"
     | none, _ => s!"{id}\tbad-case:ctx"
     | _, none => s!"{id}\tbad-case:prog"
   | _ => "?\tbad-case:fields"
